@@ -55,6 +55,8 @@ PROPS = {
                         'R2: drain_cutset(callback) applies the callback once per cut-set element, in order, and does nothing else with it'],
     },
     'C02': {
+        'quick_companions': [('dd_fuzz', ['$SEED', 2500], 'diagram level (bounded): best_exact_solution replays to best_exact_value, on random table DPs, 3 diagram types, widths 1..4'),
+                             ('solver_fuzz', ['$SEED', 400], 'solver level (bounded): the reported solution replays to the reported value; value == lower bound; ub == lb after an uninterrupted run')],
         'units': ['seq_solver', 'par_solver', 'par_owner'],
         'kani': [],
         'technique': 'Verus: ghost invariant sol_ok (stored solution replays to exactly the stored lower bound, present iff a bound is installed) on the extracted real solver text',
@@ -135,6 +137,7 @@ PROPS = {
         'assumptions': ['DashMap: entry().and_modify().or_insert() is one atomic read-modify-write per key; dominance arm runs under one shard lock'],
     },
     'C09': {
+        'quick_companions': [('solver_fuzz', ['$SEED', 1500], 'solver level (bounded): caching solvers (SimpleCache, 3 diagram types, both fringes, widths 1..3) return the exhaustive optimum on random table DPs')],
         'units': ['cache_api', 'seq_solver'],
         'dep_units': [],
         'kani': [],
@@ -155,6 +158,7 @@ PROPS = {
         'assumptions': ['FxHashMap replaced by std HashMap in the model (R13: the hasher is irrelevant to map semantics)', 'then_with rewritten to its documented match form (R12)'],
     },
     'C13': {
+        'quick_companions': [('dd_fuzz', ['$SEED', 2500], 'diagram level (bounded): number of for_each_in_domain calls between two next_variable calls <= max_width (restricted: every layer; relaxed: layers >= 2)')],
         'units': ['width'],
         'kani': [],
         'not_decided': ['per-layer width bound inside compile (needs the mdd units)'],
